@@ -6,7 +6,7 @@
    Domain ([rkey_ok], [listing_ok]): addresses of 1..255 bytes, identifiers below 2^64,
    instants in the years 1..9999 at nanosecond resolution, 32-byte hashes. *)
 From Hub Require Import Base.Prelude Base.Bytes Base.Time Base.Bech32 Gen.KeysGen.
-From Hub Require Import Proofs.BytesThm Proofs.Calendar Proofs.TimeThm Proofs.KeysThm.
+From Hub Require Import Proofs.BytesThm Proofs.Calendar Proofs.TimeThm Proofs.KeysThm Proofs.Bech32Checksum Proofs.Bech32Thm.
 
 (* ---- the key of one record is never equal to or a prefix of the key of a different
         record: within a family, across the families of a module, across the modules
@@ -98,6 +98,11 @@ Theorem C17_decode_payout_for_next_at : forall t id, u64_ok id ->
   subscription_IDFromPayoutForNextAtKey (subscription_PayoutForNextAtKey t id) = Ok id.
 Proof. exact dec_payout_for_next_at. Qed.
 
+(* a decoder returns a value only on a key of exactly the expected length (the address
+   length is read from the key); any other key makes it panic *)
+Theorem C17_decoders_length_checked : decoders_length_checked.
+Proof. exact dec_length_checked. Qed.
+
 (* ---- the time text is fixed-width and ordered like the instants ---- *)
 Theorem C17_time_text_order : forall t1 t2, time_ok t1 = true -> time_ok t2 = true ->
   bytes_cmp (fmt_time t1) (fmt_time t2) = Z.compare t1 t2.
@@ -132,6 +137,22 @@ Theorem C17_inflation_queue_order : forall t1 t2, time_ok t1 = true -> time_ok t
   (bytes_lt (mint_InflationKey t1) (mint_InflationKey t2) <-> t1 < t2).
 Proof. exact inflation_queue_order. Qed.
 
+(* ---- addresses: text and back, for every length 1..255 and every role; the
+        human-readable parts are the constants read from /repo/types/address.go ---- *)
+Theorem C17_addr_roundtrip : forall (r : arole) (a : bytes),
+  (1 <= length a <= 255)%nat /\ bytes_ok a = true ->
+  exists s, addr_to_text hrp_of r a = Some s /\ addr_from_text hrp_of r s = Some a.
+Proof. exact addr_roundtrip. Qed.
+
+Theorem C17_role_separation : forall (r r' : arole) (a s : bytes), r <> r' ->
+  (1 <= length a <= 255)%nat /\ bytes_ok a = true ->
+  addr_to_text hrp_of r a = Some s -> addr_from_text hrp_of r' s = None.
+Proof. exact role_separation. Qed.
+
+(* the checksum Encode appends always verifies (any human-readable part, any data) *)
+Theorem C17_checksum_verifies : forall hrp data, polymod hrp data (checksum hrp data) = 1%N.
+Proof. exact checksum_verifies. Qed.
+
 (* ---- non-vacuity ---- *)
 Definition ex_addr20 : bytes := repeat 7%N 20.
 Example C17_ex_key : key_bytes (RSubForAccount ex_addr20 258) =
@@ -152,6 +173,15 @@ Example C17_ex_empty_address_collides :
   key_bytes (RPayoutForAccountByNode [] [7%N] 0) = key_bytes (RPayoutForAccountByNode [7%N] [] 0).
 Proof. exact empty_address_collides. Qed.
 
+Example C17_ex_addr_text :
+  addr_to_text hrp_of RoleNode [1; 2; 3]%N = Some (bytes_of_string "sentnode1qypqx0rhvra")
+  /\ addr_from_text hrp_of RoleNode (bytes_of_string "sentnode1qypqx0rhvra") = Some [1; 2; 3]%N
+  /\ addr_from_text hrp_of RoleAcc (bytes_of_string "sentnode1qypqx0rhvra") = None.
+Proof. vm_compute. repeat split; reflexivity. Qed.
+
+Print Assumptions C17_addr_roundtrip.
+Print Assumptions C17_role_separation.
+Print Assumptions C17_checksum_verifies.
 Print Assumptions C17_key_not_prefix_store.
 Print Assumptions C17_key_not_prefix_module.
 Print Assumptions C17_key_injective.
@@ -160,6 +190,7 @@ Print Assumptions C17_prefix_isolates.
 Print Assumptions C17_node_umbrella.
 Print Assumptions C17_decode_payout_for_account_by_node.
 Print Assumptions C17_decode_sub_for_account_addr.
+Print Assumptions C17_decoders_length_checked.
 Print Assumptions C17_time_text_order.
 Print Assumptions C17_sub_inactive_queue_order.
 Print Assumptions C17_payout_queue_order.
